@@ -78,6 +78,15 @@ Proof.
   destruct (all_some_all rs xs E o Ho) as [ra ->]. exists ra. split; [reflexivity|]. eapply iter_opt_upper; eauto.
 Qed.
 
+Lemma combine_seq_nth {A} (l : list A) : forall k i x, nth_error l i = Some x ->
+  In ((k + i)%nat, x) (combine (seq k (length l)) l).
+Proof.
+  induction l as [|y tl IH]; intros k i x Hn; [destruct i; discriminate|].
+  cbn [length seq combine]. destruct i as [|i]; cbn in Hn.
+  - injection Hn as ->. left. f_equal. lia.
+  - right. replace (k + S i)%nat with (S k + i)%nat by lia. apply IH. exact Hn.
+Qed.
+
 Section Graph.
 Variable V : Type.
 Variable line : V -> V -> Z -> V.
@@ -335,8 +344,52 @@ Proof. unfold all_stmts. rewrite in_flat_map. auto. Qed.
 Lemma stmt_djust_block b s0 : In b (c_blocks c) -> In s0 (b_stmts b) ->
   djust_stmt c (block_ctl (c_blocks c) idom b) s0 = true.
 Proof.
-  intros Hb Hs. unfold djust_cfg in Hvalid. rewrite forallb_forall in Hvalid. specialize (Hvalid b Hb).
-  unfold djust_block in Hvalid. rewrite forallb_forall in Hvalid. auto.
+  intros Hb Hs. pose proof Hvalid as Hv. unfold djust_cfg in Hv. apply andb_true_iff in Hv as [_ Hv].
+  rewrite forallb_forall in Hv. specialize (Hv b Hb).
+  unfold djust_block in Hv. rewrite forallb_forall in Hv. auto.
+Qed.
+
+(* ---------- the analysis' walk finds every condition the semantics names ---------- *)
+Lemma idom_dec i d : nth_error idom i = Some (Some d) -> (N.to_nat d < i)%nat.
+Proof.
+  intros Hn. pose proof Hvalid as Hv. unfold djust_cfg in Hv. apply andb_true_iff in Hv as [Hv _].
+  unfold idom_shape in Hv. apply andb_true_iff in Hv as [Hv _]. rewrite forallb_forall in Hv.
+  pose proof (combine_seq_nth idom 0 i (Some d) Hn) as Hin. cbn [Nat.add] in Hin.
+  specialize (Hv _ Hin). cbn in Hv. apply Nat.ltb_lt in Hv. exact Hv.
+Qed.
+
+Lemma pred_in_range b q : In b (c_blocks c) -> In q (b_preds b) -> (N.to_nat q < length (c_blocks c))%nat.
+Proof.
+  intros Hb Hq. pose proof Hvalid as Hv. unfold djust_cfg in Hv. apply andb_true_iff in Hv as [Hv _].
+  unfold idom_shape in Hv. apply andb_true_iff in Hv as [_ Hv]. rewrite forallb_forall in Hv. specialize (Hv b Hb).
+  rewrite forallb_forall in Hv. specialize (Hv q Hq). apply Nat.ltb_lt in Hv. exact Hv.
+Qed.
+
+Lemma above_in_chain stop : forall fuel pp q, above idom stop pp q -> (N.to_nat pp < fuel)%nat ->
+  forall e, In e (cond_at (c_blocks c) q) -> In e (chain_conds fuel (c_blocks c) idom stop pp).
+Proof.
+  induction fuel as [|fuel IH]; intros pp q Hab Hlt e He; [lia|]. cbn [chain_conds].
+  destruct Hab as [pp|pp d q Hns Hid Hab].
+  - apply in_or_app. left. exact He.
+  - apply in_or_app. right.
+    destruct (opt_eqb N.eqb (Some pp) stop) eqn:Eq.
+    + exfalso. apply Hns. destruct stop as [st|]; cbn in Eq; [|discriminate]. apply N.eqb_eq in Eq. congruence.
+    + rewrite Hid. apply (IH d q Hab); [|exact He]. pose proof (idom_dec _ _ Hid). lia.
+Qed.
+
+Lemma decides_in_deciding b cond : In b (c_blocks c) -> decides c idom b cond ->
+  forall cs, deciding (c_blocks c) idom b = Some cs -> In cond cs.
+Proof.
+  intros Hb (pp & q & bq & m & t & f & Hp & Hab & Hq & Hl) cs Hd.
+  unfold deciding in Hd. destruct (length (b_preds b) <? 2)%nat; [discriminate|]. injection Hd as <-.
+  apply in_flat_map. exists pp. split; [exact Hp|]. unfold idom_of.
+  assert (Hlt : (N.to_nat pp < S (length (c_blocks c)))%nat) by (pose proof (pred_in_range b pp Hb Hp); lia).
+  refine (above_in_chain _ (S (length (c_blocks c))) pp q Hab Hlt cond _).
+  unfold cond_at. rewrite Hq. unfold last_cond.
+  replace (last (b_stmts bq) (SLog {| m_start := 0%N; m_end := 0%N; m_file := None |} [])) with (SIf m cond t f); [left; reflexivity|].
+  (* the default of [last] matters only for an empty block, where neither side is an SIf *)
+  destruct (b_stmts bq) as [|s0 tl] eqn:Es; [cbn in Hl; discriminate|].
+  rewrite <- Hl. clear. revert s0. induction tl as [|y tl IH]; intros s0; [reflexivity|]. cbn [last]. apply IH.
 Qed.
 
 Lemma djust_stmt_nophi m s0 x op rhe sv st mm : s0 = SSubst mm x op rhe sv st -> is_phi_e rhe = false ->
@@ -400,30 +453,33 @@ Proof.
       pose proof (stmt_djust_block b _ Hb Hsb) as Hj. cbn [djust_stmt] in Hj.
       pose proof (deg_claim_is_spec _ _ _ Hj Hd) as Hi.
       destruct (phi_adjust_cases _ _ _ Hi) as [[Hm Hio]|Hnq]; [|intros i; rewrite Hnq; exact I].
-      (* the deciding condition is known constant: the same argument for every valuation *)
+      (* every deciding condition is known constant: the same argument for every valuation *)
       assert (Hconst : forall r1 r2, pick r1 = pick r2).
       { assert (Hpb : phi_block_of c x b) by (split; [exact Hb|]; eauto 10).
-        specialize (Hpick b Hpb). unfold block_ctl in Hm. destruct (deciding (c_blocks c) idom b) as [|cond|] eqn:Edec; cbn [ctl_of] in Hm.
-        - exact Hpick.
-        - destruct (expr_deg cond) as [rc|] eqn:Erc; [|discriminate].
-          destruct (range_is_constant rc) eqn:Ecc; [|discriminate].
-          destruct (den s cond) as [C|] eqn:EC; [|exact Hpick]. apply Hpick.
+        apply (Hpick b Hpb). unfold block_ctl in Hm.
+        destruct (deciding (c_blocks c) idom b) as [cs|] eqn:Edec.
+        - right. intros cond Hdc. pose proof (decides_in_deciding b cond Hb Hdc cs Edec) as Hincs.
+          unfold ctl_of_conds in Hm.
+          destruct (existsb cond_nonconst cs) eqn:En; [discriminate|].
+          destruct (existsb cond_unknown cs) eqn:Eu; [discriminate|].
+          assert (Hn : cond_nonconst cond = false).
+          { destruct (cond_nonconst cond) eqn:E0; [|reflexivity]. exfalso.
+            assert (existsb cond_nonconst cs = true) by (apply existsb_exists; exists cond; auto). congruence. }
+          assert (Hu : cond_unknown cond = false).
+          { destruct (cond_unknown cond) eqn:E0; [|reflexivity]. exfalso.
+            assert (existsb cond_unknown cs = true) by (apply existsb_exists; exists cond; auto). congruence. }
+          unfold cond_unknown in Hu. destruct (expr_deg cond) as [rc|] eqn:Erc; [|discriminate].
+          unfold cond_nonconst in Hn. rewrite Erc in Hn. apply negb_false_iff in Hn.
+          unfold cond_fixed. destruct (DegSem.den V p sem2 sem1 call_sem name_code s cond) as [C|] eqn:EC; [|exact I].
           (* the condition is a statement of the graph, hence validated *)
-          assert (Hjc : djust_expr c cond = true).
-          { unfold deciding in Edec. destruct (length (b_preds b) <? 2)%nat; [discriminate|].
-            assert (Hlast : forall bb, In bb (c_blocks c) -> last_cond bb = DecCond cond -> djust_expr c cond = true).
-            { intros bb Hbb Hl. unfold last_cond in Hl.
-              destruct (last (b_stmts bb) _) as [| mm cc tt ff | | | | |] eqn:El; try discriminate. injection Hl as ->.
-              assert (Hinl : In (SIf mm cond tt ff) (b_stmts bb)).
-              { rewrite <- El. apply last_in. intros Hnil. rewrite Hnil in El. cbn in El. discriminate. }
-              pose proof (stmt_djust_block bb _ Hbb Hinl) as Hjj. exact Hjj. }
-            destruct (existsb (fun q => N.leb (b_index b) q) (b_preds b)); [exact (Hlast b Hb Edec)|].
-            destruct (nth_error idom (N.to_nat (b_index b))) as [[d|]|]; try discriminate.
-            destruct (nth_error (c_blocks c) (N.to_nat d)) as [bd|] eqn:Ebd; [|discriminate].
-            exact (Hlast bd (nth_error_In _ _ Ebd) Edec). }
+          destruct Hdc as (p0 & q & bq & mm & tt & ff & _ & _ & Hq & Hl).
+          assert (Hinl : In (SIf mm cond tt ff) (b_stmts bq)).
+          { rewrite <- Hl. apply last_in. intros Hnil. rewrite Hnil in Hl. cbn in Hl. discriminate. }
+          pose proof (stmt_djust_block bq _ (nth_error_In _ _ Hq) Hinl) as Hjc. cbn [djust_stmt] in Hjc.
           pose proof (djust_expr_sound s Hok cond C EC Hjc rc Erc []) as HC.
-          rewrite (range_is_constant_snd rc Ecc) in HC. exact HC.
-        - discriminate. }
+          rewrite (range_is_constant_snd rc Hn) in HC. exact HC.
+        - left. unfold deciding in Edec. destruct (length (b_preds b) <? 2)%nat eqn:El; [|discriminate].
+          apply Nat.ltb_lt in El. exact El. }
       intros i. unfold phi_fam.
       apply (select_general (snd r) pick (fun a rho => match s a with Some G0 => G0 i rho | None => 0 end) Hconst).
       intros r0. destruct (s (pick r0)) as [G0|] eqn:Ea; [|exfalso; exact (Hps r0 Ea)].
